@@ -28,6 +28,7 @@ type c12cfg struct {
 	Labels  map[string]string
 	Custom  uint8 `dialsflag:"my-custom"`
 	Ratio   float32
+	Big     []uint64
 	Z64     complex64
 	Seen    map[string]struct{} // nil in the template
 	Multi   map[string][]string // nil in the template
@@ -37,6 +38,7 @@ func c12run(scalars, colls bool) {
 	tmpl := c12cfg{
 		Port: zzverif.Int8("dPort"), Count: zzverif.Int64("dCount"), Name: "dn", Peer: c12peer{Addr: "da", TTL: zzverif.Uint16("dTTL")},
 		Verbose: zzverif.Bool("dVerbose"), Tags: []string{"t0"}, Custom: zzverif.Byte("dCustom"), Ratio: 0.5,
+		Big: []uint64{1, 1 << 63},
 	}
 	dPort, dCount, dTTL, dVerbose, dCustom := tmpl.Port, tmpl.Count, tmpl.Peer.TTL, tmpl.Verbose, tmpl.Custom
 	var args []string
@@ -152,6 +154,7 @@ func c12run(scalars, colls bool) {
 	zzverif.Assert(def("name") == "dn" && def("peer-addr") == "da", "C12 string flags: the advertised default is not the template's value")
 	zzverif.Assert(def("verbose") == strconv.FormatBool(dVerbose), "C12 flag verbose: the advertised default is not the template's value")
 	zzverif.Assert(def("tags") == `"t0"`, "C12 flag tags: the advertised default is not the template's value")
+	zzverif.Assert(def("big") == "1,9223372036854775808", "C12 flag big: the advertised default of an unsigned slice is not the template's value")
 
 	t := dials.NewType(fs.ptrType)
 	val, verr := fs.Value(context.Background(), t)
